@@ -52,6 +52,9 @@ def r14_1_prank_consumption(repo: Repo, rep: Report):
     t = src(rp)
     ok = "prank_result = self.context.prank.lookup(to)" in t and "caller = self.this() if prank_result.sender is None else prank_result.sender" in t and "origin = self.origin() if prank_result.origin is None else prank_result.origin" in t
     rep.check("R14.1", ok, m, rp, "resolve_prank: lookup on this frame's prank; defaults are this()/origin()", "without a prank the sender is the executing contract and the origin is inherited")
+    rets = [r for r in body_walk(rp) if isinstance(r, ast.Return)]
+    ok = len(rets) == 1 and isinstance(rets[0].value, ast.Tuple) and [src(e) for e in rets[0].value.elts] == ["caller", "origin"]
+    rep.check("R14.1", ok, m, rets[0] if rets else rp, f"resolve_prank returns {src(rets[0].value) if rets and rets[0].value is not None else '?'}", "the pair is unpacked as (sender, origin) by call and create: returned in another order the pranked sender becomes tx.origin and vice versa")
     mc, lk = repo.fn("cheatcodes.Prank.lookup")
     ifs = [i for i in body_walk(lk) if isinstance(i, ast.If)]
     ok = bool(ifs) and csrc(ifs[0].test) == csrc("self and to not in [halmos_cheat_code.address, hevm_cheat_code.address]")
@@ -271,6 +274,18 @@ def r14_4_freshness(repo: Repo, rep: Report):
         rep.check("R14.4", ok, ms, fn, f"{q}: increments cnts['{key}'] before use", "counter must advance on every use")
 
 
+def r14_6_block_not_journaled(repo: Repo, rep: Report):
+    rep.rule("R14.6", "values set by warp/roll/fee/chainId/coinbase/difficulty are not part of the frame rollback: an Exec's block environment is bound once, at construction")
+    n = 0
+    for mm in repo.modules.values():
+        for node in ast.walk(mm.tree):
+            if isinstance(node, ast.Attribute) and node.attr == "block" and isinstance(node.ctx, (ast.Store, ast.Del)):
+                where = mm.qual(node)
+                n += 1
+                rep.check("R14.6", where == "sevm.Exec.__init__" and src(node.value) == "self", mm, node, f"{where}: {src(mm.parents.get(node, node))[:70]}", "the block environment of an existing state is replaced (e.g. restored from a snapshot when a sub-call fails): block cheatcodes issued inside a frame that later reverts are undone, and the caller's subsequent reads return the old values")
+    rep.floor("R14.6", 1, "binding of Exec.block")
+
+
 def r14_5_shared(repo: Repo, rep: Report):
     """state written by cheatcodes (block fields, prank records) must stay inside the path / transaction that wrote it:
     fork-copy and per-transaction copy completeness (shared with C20)"""
@@ -288,4 +303,4 @@ def r14_5_shared(repo: Repo, rep: Report):
     check_verdict_sites(repo, rep, "R02.1", modules=("sevm",), only_functions={"sevm.Exec.select", "sevm.Exec.balance_of"})
 
 
-RULES = [r14_5_shared, r14_1_prank_consumption, r14_2_selector_effect_table, r14_3_encoders, r14_4_freshness]
+RULES = [r14_5_shared, r14_1_prank_consumption, r14_2_selector_effect_table, r14_3_encoders, r14_4_freshness, r14_6_block_not_journaled]
